@@ -62,6 +62,23 @@ def reject_point(m, printed):
     return f'at:{bad}'
 
 
+# multi-line inner queries for the commands that store raw text: a line ends in a token whose decoded value is shorter /
+# longer than its source, followed by more lines
+RAW_BODIES = [
+    "select * from t where a = 'it''s'\n  and b = 2",
+    "select * from t where a = 'a\\'b'\n  and b = 2\n  and c = 3",
+    'select * from t where a = "a\\"b"\nand b = 2',
+    "select @`a b`\n, 1\nfrom t",
+    "select @@sv\n, @v\n  from t",
+    "select ''\n, " + "'" * 4 + "\n, 1",
+    "select 1 -- c\n, 2\n from t",
+    "select /* c\n d */ 1\n, 2",
+    "select\n\n1\n\n,\n2",
+    "select 'a\nb'\n, 2",
+    "select `x y`\n, 007\n, 1.50\nfrom t",
+]
+
+
 class CHECK(Check):
     pid = 'C01'
     level = 'model_checking'
@@ -77,21 +94,21 @@ class CHECK(Check):
         thorough = self.tier == 'thorough'
         for d, m in self.models.items():
             f = self.fams[d]
-            sents = set(f.s0_edges()) | set(f.s0_pairs())
-            if thorough:
-                f2 = gsx.Families(m, 2)
-                sents |= set(f2.s0_edges())
-                self.fams[d + '2'] = f2
-            sents = sorted(s for s in sents if m.simulate(s)[0] and all(t in m.lexeme for t in s))
-            kw = lexemes.keyword_ids(m)
-            alts = dict(lexemes.ALT)
-            alts['ID'] = lexemes.ALT['ID'] + ['`%s`' % w for w in kw]
             pairs = set(f.s0_pairs())
+            usable = lambda s: m.simulate(s)[0] and all(t in m.lexeme for t in s)
+            sents = sorted(s for s in set(f.s0_edges()) | pairs if usable(s))
+            kw = lexemes.keyword_ids(m)
             for s in sents:
                 out.append((d, 'default', None, m.text_of(s, numbered=True)))
-                if s in pairs or thorough:
-                    for i, sp, text in lexemes.deviations(m, s, alts=alts if thorough else lexemes.ALT, per_class_first_only=not thorough, magic=False):
+                if s in pairs:
+                    # layout deviation: every token on a line of its own
+                    out.append((d, 'layout', 'nl', m.text_of(s, numbered=True).replace(' ', '\n')))
+                    for i, sp, text in lexemes.deviations(m, s, alts=lexemes.ALT, per_class_first_only=not thorough, magic=False):
                         out.append((d, s[i], sp, text))
+            # two derivation steps away from the minimal sentences
+            for s in f.s0_triples(exclude=pairs):
+                if usable(s):
+                    out.append((d, 'default', None, m.text_of(s, numbered=True)))
             # keyword identifiers: every keyword word back-quoted (and bare) in a few fixed contexts
             for w in kw:
                 for ctx in ('select %s from t', 'select a from %s', 'select a as %s from t', 'select t.%s from t', 'select %s.a from %s',
@@ -100,7 +117,61 @@ class CHECK(Check):
                     out.append((d, 'ID', 'kw', ctx.replace('%s', w)))
             for text in f.kw_family(['abc'] + lexemes.MAGIC_IDS):
                 out.append((d, 'kw', None, text))
+            if d == 'mindsdb':
+                # statements that embed a raw inner query: lexeme sequences x embeddings x layouts (the stored text is part of the tree)
+                from vf.props import c16
+                import itertools
+                for n in (1, 2):
+                    for seq in itertools.product(c16.LEX, repeat=n):
+                        if not c16.balanced(seq):
+                            continue
+                        for ei, (name, tpl, attr) in enumerate(c16.EMBED):
+                            for layout in c16.LAYOUTS:
+                                out.append((d, 'raw:' + name, layout, tpl.format(q=c16.lay(seq, layout))))
+                for body in RAW_BODIES:
+                    for ei, (name, tpl, attr) in enumerate(c16.EMBED):
+                        out.append((d, 'raw:' + name, 'multi-line', tpl.format(q=body)))
+            if thorough:
+                f2 = gsx.Families(m, 2)
+                self.fams[d + '2'] = f2
+                n2 = len(f2.ex['states'])
+                for lo in range(0, n2, 200):
+                    out.append(('@group', d, 'k2', lo, min(n2, lo + 200)))
+                for lo in range(0, len(sents), 50):
+                    out.append(('@group', d, 'kwdev', lo, min(len(sents), lo + 50)))
+                self._sents = getattr(self, '_sents', {})
+                self._sents[d] = sents
         return out
+
+    def expand(self, group):
+        _, d, fam, lo, hi = group
+        m = self.models[d]
+        if fam == 'k2':
+            f2 = self.fams[d + '2']
+            for a in list(f2.ex['states'])[lo:hi]:
+                pre, stk = f2.ex['states'][a]
+                for t in m.terminals:
+                    r = m.step(stk, t)
+                    if r is None or r == 'accept':
+                        continue
+                    c = m.complete(r)
+                    if c is None:
+                        continue
+                    s = pre + (t,) + c
+                    if all(x in m.lexeme for x in s):
+                        yield (d, 'default', None, m.text_of(s, numbered=True))
+        elif fam == 'kwdev':
+            # every keyword, back-quoted, at the first identifier position of every k=1 sentence
+            kw = lexemes.keyword_ids(m)
+            for s in self._sents[d][lo:hi]:
+                if 'ID' not in s:
+                    continue
+                i = s.index('ID')
+                base = [m.lexeme.get(t, t) for t in s]
+                for w in kw:
+                    toks = list(base)
+                    toks[i] = '`%s`' % w
+                    yield (d, 'ID', toks[i], ' '.join(toks))
 
     def run(self, case):
         res = Result()
@@ -154,7 +225,7 @@ class CHECK(Check):
         st = sum(len(f.ex['states']) for f in self.fams.values())
         tr = sum(f.ex['edges'] for f in self.fams.values())
         return {'exhaustive': True, 'states': st, 'transitions': tr, 'traces_validated_against_impl': agg['n'],
-                'rule': 'accepted S0 sentences (edge cover + production-pair cover) with numbered default lexemes, one lexeme respelling at a time, '
+                'rule': 'accepted S0 sentences (edge cover + production-pair cover + production-triple cover) with numbered default lexemes, one lexeme respelling at a time, one-token-per-line layout, raw-query commands x lexeme sequences of length<=2 x layouts + multi-line bodies (thorough: k=2 edge cover, every keyword at the first identifier of every sentence), '
                         'every keyword as identifier in 8 contexts, USING-list family; distinct_nontrivial = distinct (dialect, printed SQL)'}
 
     def describe_case(self, case):
